@@ -9,7 +9,7 @@ import os
 import subprocess
 from concurrent.futures import ThreadPoolExecutor
 
-from ..common import Report, main_wrapper, scratch, seed, run_tlc, MachineryError, tlc_failure_excerpt, ROOT, NCPU
+from ..common import Report, main_wrapper, scratch, eff_seed, run_tlc, MachineryError, tlc_failure_excerpt, ROOT, NCPU
 from .args import parse
 
 MODULES = ["harness.corpus.basic", "harness.corpus.configs", "harness.corpus.memory", "harness.corpus.replace"]
@@ -36,7 +36,7 @@ def main():
     a = parse()
     rep = Report("C18", a.tier, "exploration")
     quick = a.tier == "quick"
-    s = seed()
+    s = eff_seed()
     variants = [
         {"hashseed": 0, "offset": 0, "order": "fwd"},
         {"hashseed": 1, "offset": 0, "order": "fwd"},
